@@ -153,8 +153,11 @@ def run_property(pid, tier='quick', replay=None, quiet=False):
     mod = importlib.import_module('bsverif.rules.%s' % pid.lower())
     prog = front.Program()
 
+    partial = [None]
+
     def attempt(inline):
         INLINE_MODE[0] = inline
+        partial[0] = None
         c = Ctx(pid, tier, prog)
         try:
             mod.check(c)
@@ -168,6 +171,7 @@ def run_property(pid, tier='quick', replay=None, quiet=False):
                 # not become undecided because something else is); the rest of the property is reported as not analysed
                 c.notes.append('the analysis stopped early (%s): obligations after that point were not evaluated' % e)
                 return c, None
+            partial[0] = c
             return None, 'ANALYSIS-ERROR property=%s %s' % (pid, e)
         except Exception as e:  # internal error: never a violation
             return None, 'ANALYSIS-ERROR property=%s internal: %r\n%s' % (pid, e, traceback.format_exc())
@@ -181,8 +185,9 @@ def run_property(pid, tier='quick', replay=None, quiet=False):
         if ctx is None and ctx2 is not None:
             ctx, err = ctx2, None
             ctx.notes.append('analysed on the normal form with single-site pure temporaries read through')
-        elif ctx is not None and ctx2 is not None:
-            good = {(o.rule, o.key) for o in ctx2.obs if o.ok}
+        elif ctx is not None and (ctx2 is not None or partial[0] is not None):
+            # (when the normal-form analysis stopped early, the obligations it discharged before that still count)
+            good = {(o.rule, o.key) for o in (ctx2 or partial[0]).obs if o.ok}
             for o in ctx.obs:
                 if not o.ok and (o.rule, o.key) in good:
                     o.ok = True
